@@ -178,20 +178,28 @@ Qed.
 Lemma ins_len_perm e l : Permutation (ins_len e l) (e :: l).
 Proof.
   induction l as [|x l IH]; cbn [ins_len]; [reflexivity|].
-  destruct (klen x <? klen e)%nat; [|reflexivity]. rewrite IH. apply perm_swap.
+  destruct (key_ltb x e); [|reflexivity]. rewrite IH. apply perm_swap.
 Qed.
 Lemma sort_len_perm m : Permutation (sort_len m) m.
 Proof. unfold sort_len. induction m as [|e m IH]; cbn [fold_right]; [reflexivity|]. rewrite ins_len_perm. constructor. exact IH. Qed.
 
 Definition len_le (a b : pset * Z) : Prop := (klen a <= klen b)%nat.
+Lemma key_ltb_true x e : key_ltb x e = true -> (klen x <= klen e)%nat.
+Proof.
+  unfold key_ltb. intros H. apply orb_true_iff in H. destruct H as [H|H].
+  - apply Nat.ltb_lt in H. lia.
+  - apply andb_true_iff in H. destruct H as [H _]. apply Nat.eqb_eq in H. lia.
+Qed.
+Lemma key_ltb_false x e : key_ltb x e = false -> (klen e <= klen x)%nat.
+Proof. unfold key_ltb. intros H. apply orb_false_iff in H. destruct H as [H _]. apply Nat.ltb_ge in H. exact H. Qed.
 Lemma ins_len_sorted e l : StronglySorted len_le l -> StronglySorted len_le (ins_len e l).
 Proof.
   induction l as [|x l IH]; intros H; cbn [ins_len]; [repeat constructor|].
   inversion H as [|? ? Hl Hx]; subst.
-  destruct (klen x <? klen e)%nat eqn:E.
-  - constructor; [apply IH; assumption|]. apply Nat.ltb_lt in E.
-    eapply Permutation_Forall; [symmetry; apply ins_len_perm|]. constructor; [unfold len_le; lia | assumption].
-  - apply Nat.ltb_ge in E. constructor; [assumption|]. constructor; [exact E|].
+  destruct (key_ltb x e) eqn:E.
+  - constructor; [apply IH; assumption|]. apply key_ltb_true in E.
+    eapply Permutation_Forall; [symmetry; apply ins_len_perm|]. constructor; [exact E | assumption].
+  - apply key_ltb_false in E. constructor; [assumption|]. constructor; [exact E|].
     eapply Forall_impl; [|exact Hx]. unfold len_le. intros a Ha. lia.
 Qed.
 Lemma sort_len_sorted m : StronglySorted len_le (sort_len m).
@@ -212,16 +220,15 @@ Definition row_of (total : Z) (e : pset * Z) : srow := {| skey := fst e; scount 
 Lemma rows_count t l : fold_right (fun r b => scount r + b) 0 (map (row_of t) l) = sum_if (fun _ => true) l.
 Proof. induction l as [|x l IH]; cbn [map fold_right]; [reflexivity|]. rewrite sum_if_cons, IH. cbn [scount row_of]. lia. Qed.
 
+Lemma summary_eq m : summary m = Ok (map (row_of (sm_total m)) (sort_len m), sm_total m).
+Proof.
+  unfold summary. f_equal. f_equal.
+  match goal with |- fold_left _ (map ?f _) 0 = _ => change f with (row_of (sm_total m)) end.
+  rewrite fold_count, rows_count. rewrite (sum_if_perm _ _ _ (sort_len_perm m)). unfold sm_total. lia.
+Qed.
 Lemma summary_ok m rows total : summary m = Ok (rows, total) ->
   rows = map (row_of (sm_total m)) (sort_len m) /\ total = sm_total m.
-Proof.
-  unfold summary. destruct m as [|e m]; [intros H; inversion H; subst; split; reflexivity|].
-  destruct (sm_total (e :: m) =? 0) eqn:E; [discriminate|]. intros H. inversion H; subst. clear H.
-  split; [reflexivity|].
-  match goal with |- fold_left _ (map ?f _) 0 = _ => change f with (row_of (sm_total (e :: m))) end.
-  rewrite fold_count, rows_count.
-  rewrite (sum_if_perm _ _ _ (sort_len_perm (e :: m))). unfold sm_total. lia.
-Qed.
+Proof. rewrite summary_eq. intros H. inversion H; subst. split; reflexivity. Qed.
 
 Theorem summary_rows files rows total :
   summary (get_setmap files) = Ok (rows, total) ->
@@ -247,13 +254,9 @@ Proof.
     constructor; [apply IH; assumption|]. apply Forall_map. eapply Forall_impl; [|exact Hx]. intros a Ha. exact Ha.
 Qed.
 
-(* summary fails only on a non-empty table whose counts add up to zero *)
-Lemma summary_err files e : summary (get_setmap files) = Err e -> sloc files = 0 /\ spec_keys files <> [].
-Proof.
-  unfold summary. rewrite <- keys_get_setmap. destruct (get_setmap files) as [|x m] eqn:Em; [discriminate|].
-  rewrite <- Em, setmap_total, Em. destruct (sloc files =? 0) eqn:E; [|discriminate]. intros _.
-  split; [apply Z.eqb_eq, E | discriminate].
-Qed.
+(* summary never fails (a zero total gives NaN percentages, not ZeroDivisionError) *)
+Lemma summary_never_fails files : exists rows, summary (get_setmap files) = Ok (rows, sloc files).
+Proof. rewrite summary_eq, setmap_total. eexists. reflexivity. Qed.
 
 (* ---------- line level: partition into buckets, export ---------- *)
 Lemma NoDup_app_inv {A} (a b : list A) : NoDup (a ++ b) -> NoDup a /\ NoDup b /\ forall x, In x a -> ~ In x b.
